@@ -2,6 +2,7 @@ package bitcoin_reader
 
 import (
 	"context"
+	"crypto/sha256"
 	"fmt"
 	"sync"
 	"time"
@@ -18,7 +19,43 @@ import (
 
 var (
 	errBlockDownloadCancelled = errors.New("Block Download Cancelled")
+
+	// ErrMutatedBlock means the block's transaction list pairs two identical hashes in its merkle
+	// tree, so it is a copy of another list with its last transactions repeated.
+	ErrMutatedBlock = errors.New("Mutated Block")
 )
+
+// merkleMutationDetector detects a transaction list that pairs two identical hashes at any level
+// of its merkle tree. A block with a copy of its last transactions appended is such a list and
+// has the same merkle root as the block without the copy, so the root check can't refuse it.
+type merkleMutationDetector struct {
+	pending []*bitcoin.Hash32 // left hash waiting for its right hash at each level
+	mutated bool
+}
+
+func (d *merkleMutationDetector) add(hash bitcoin.Hash32) {
+	for level := 0; ; level++ {
+		if level == len(d.pending) {
+			d.pending = append(d.pending, nil)
+		}
+
+		left := d.pending[level]
+		if left == nil {
+			d.pending[level] = &hash
+			return
+		}
+
+		if left.Equal(&hash) {
+			d.mutated = true
+		}
+
+		d.pending[level] = nil
+		s := sha256.New()
+		s.Write(left[:])
+		s.Write(hash[:])
+		hash = sha256.Sum256(s.Sum(nil)) // double SHA256 of the pair is the hash one level up
+	}
+}
 
 type OnComplete func(context.Context, *BlockDownloader, error)
 
@@ -347,6 +384,7 @@ func (bd *BlockDownloader) handleBlock(ctx context.Context, header *wire.BlockHe
 	var blockTxIDs []bitcoin.Hash32
 
 	merkleTree := merkle_proof.NewMerkleTree(true)
+	var mutationDetector merkleMutationDetector
 	var coinbaseTx *wire.MsgTx
 	txByteCount := 0
 	i := 0
@@ -371,6 +409,7 @@ func (bd *BlockDownloader) handleBlock(ctx context.Context, header *wire.BlockHe
 		}
 
 		merkleTree.AddHash(txid)
+		mutationDetector.add(txid)
 
 		if bd.wasCancelled() {
 			for range txChannel { // flush channel
@@ -383,6 +422,10 @@ func (bd *BlockDownloader) handleBlock(ctx context.Context, header *wire.BlockHe
 
 	if uint64(i) != txCount {
 		return errBlockDownloadCancelled
+	}
+
+	if mutationDetector.mutated {
+		return ErrMutatedBlock
 	}
 
 	// Check merkle root hash
